@@ -218,7 +218,7 @@ impl Monitor for C02 {
         J::obj().with("random_patterns_this_shard", J::u(n))
     }
     fn corpus(&self) -> Vec<Case> {
-        raw(&[("a|ab", "", "abab"), ("(?:a|ab)(?:c|bcd)", "", "abcd"), ("a.*?b?c", "", "axbcbc"), ("\u{10400}+b", "", "a\u{10400}\u{10400}b\u{10400}b"), ("(?:a|b)*?b", "", "aabab"), ("\\n(?:a?)*?", "", "\na")])
+        raw(&[("(?:a|ab){0,2}c", "", "abac"), ("(?:\\w|\\w-){0,3}!", "", "a-bc!"), ("a|ab", "", "abab"), ("(?:a|ab)(?:c|bcd)", "", "abcd"), ("a.*?b?c", "", "axbcbc"), ("\u{10400}+b", "", "a\u{10400}\u{10400}b\u{10400}b"), ("(?:a|b)*?b", "", "aabab"), ("\\n(?:a?)*?", "", "\na")])
     }
 }
 
@@ -396,6 +396,62 @@ fn gen_multidigit(rng: &mut Rng) -> (String, String) {
     (p, s)
 }
 
+/// Oracle-free twin for back-references under flag i on letters the reference model does not
+/// cover: when group 1 is a literal that the input repeats verbatim, '\1' is compared with the
+/// following text exactly as a second copy of the literal would be. aux = "lit_twin"; the pattern
+/// is P = pre (L) sep \1 post, the twin P' = pre (L) sep L post.
+fn backref_literal_twin_check(c: &Case, obs: &mut Obs) -> Outcome {
+    let ast = match ast_of(c) {
+        Some(a) => a,
+        None => return Outcome::Inconclusive("no_ast"),
+    };
+    let groups = ast.groups_in_order();
+    let lit = match groups.first() {
+        Some(Node::Group(b)) if matches!(&**b, Node::Char(_)) || matches!(&**b, Node::Cat(v) if v.iter().all(|x| matches!(x, Node::Char(_)))) => (**b).clone(),
+        _ => return Outcome::Inconclusive("group_1_is_not_a_literal"),
+    };
+    fn swap(n: &Node, lit: &Node) -> Node {
+        match n {
+            Node::Backref(1) => Node::NcGroup(Box::new(lit.clone())),
+            Node::Group(b) => Node::Group(Box::new(swap(b, lit))),
+            Node::NcGroup(b) => Node::NcGroup(Box::new(swap(b, lit))),
+            Node::Cat(v) => Node::Cat(v.iter().map(|x| swap(x, lit)).collect()),
+            Node::Alt(v) => Node::Alt(v.iter().map(|x| swap(x, lit)).collect()),
+            Node::Repeat { body, min, max, greedy, spell } => Node::Repeat { body: Box::new(swap(body, lit)), min: *min, max: *max, greedy: *greedy, spell: *spell },
+            o => o.clone(),
+        }
+    }
+    let twin = swap(&ast, &lit);
+    let re1 = match compile_case(c) {
+        Ok(r) => r,
+        Err(o) => return o,
+    };
+    let re2 = match api(engine::compile(&twin.render(), &c.flags, c.dialect), "compile") {
+        Ok(Ok(r)) => r,
+        Ok(Err(_)) => return Outcome::Inconclusive("twin_rejected"),
+        Err(o) => return o,
+    };
+    let (m1, m2) = match (api(engine::is_match(&re1, &c.input), "is_match"), api(engine::is_match(&re2, &c.input), "is_match")) {
+        (Ok(a), Ok(b)) => (a, b),
+        (Err(o), _) | (_, Err(o)) => return o,
+    };
+    obs.count(if m2 { "literal_twin_matches" } else { "literal_twin_does_not_match" });
+    if m1 != m2 {
+        return Outcome::Violated(vec![Finding::new("backreference_differs_from_literal_copy", format!("with \\1: {}", m1), format!("with the literal {:?} in its place: {}", lit.render(), m2))]);
+    }
+    let (s1, s2) = match (api(engine::spans_via_replace(&re1, &c.input), "replace_all"), api(engine::spans_via_replace(&re2, &c.input), "replace_all")) {
+        (Ok(a), Ok(b)) => (a, b),
+        (Err(o), _) | (_, Err(o)) => return o,
+    };
+    if s1 != s2 {
+        return Outcome::Violated(vec![Finding::new("backreference_differs_from_literal_copy", format!("spans with \\1: {:?}", s1), format!("spans with the literal in its place: {:?}", s2))]);
+    }
+    if m2 {
+        obs.nontrivial(c.key());
+    }
+    Outcome::Held
+}
+
 impl Monitor for C19 {
     fn rule(&self) -> &'static str {
         "cases = (pattern containing back-references, flags incl. i, input over {a,b,A}); is_match against the env-aware match relation (exhaustive over match paths), spans and captures against the ordered-choice reference (strict domain) or the weak clause; where the two readings of capture semantics inside loops differ the case is not judged. Multi-digit \\N: patterns with 9-12 groups whose AST is produced by the independent parser. Non-trivial: AST >= 2 nodes and non-empty input."
@@ -416,6 +472,9 @@ impl Monitor for C19 {
         };
         if !ast.has_backref() {
             return Outcome::Inconclusive("no_backref");
+        }
+        if c.aux.as_deref() == Some("lit_twin") {
+            return backref_literal_twin_check(c, obs);
         }
         obs.count("with_backref");
         let o = ref_check(c, obs, Wants { is_match: true, spans: true, groups: true, analyze: false });
@@ -443,7 +502,55 @@ impl Monitor for C19 {
                 emit(Case::new(&ast, fl, &inp));
             }
         }
-        J::obj().with("random_patterns_this_shard", J::u(n))
+        // back-references under flag i on letters with irregular case relations: literal twin
+        let nt = w.share(30_000, 600_000);
+        for _ in 0..nt {
+            let len = 1 + rng.below(3);
+            let l: Vec<char> = (0..len).map(|_| *rng.pick(IRREGULAR_CASE)).collect();
+            let lit = Node::Cat(l.iter().map(|c| Node::Char(*c)).collect()).normalize();
+            let sep: Vec<char> = if rng.chance(1, 3) { vec!['-'] } else { vec![] };
+            let mut v = vec![];
+            let anchored = rng.chance(1, 2);
+            if anchored {
+                v.push(Node::Bol);
+            }
+            v.push(Node::Group(Box::new(lit)));
+            v.extend(sep.iter().map(|c| Node::Char(*c)));
+            v.push(Node::Backref(1));
+            if rng.chance(1, 3) {
+                v.push(Node::Repeat { body: Box::new(Node::Backref(1)), min: 0, max: Some(1), greedy: true, spell: 0 });
+            }
+            if anchored {
+                v.push(Node::Eol);
+            }
+            let ast = Node::Cat(v);
+            // input: the literal verbatim, then a case variant (or an unrelated letter) per character
+            let variant = |rng: &mut Rng, c: char| -> char {
+                let fam: &[&[char]] = &[&['k', 'K', '\u{212A}'], &['i', 'I', '\u{130}', '\u{131}'], &['s', 'S', '\u{17F}'], &['\u{3C3}', '\u{3C2}', '\u{3A3}'], &['\u{DF}', '\u{1E9E}'], &['\u{3C9}', '\u{3A9}', '\u{2126}'], &['\u{E5}', '\u{C5}', '\u{212B}'], &['\u{1C4}', '\u{1C5}', '\u{1C6}'], &['\u{10400}', '\u{10428}'], &['a', 'A']];
+                if rng.chance(1, 8) {
+                    return *rng.pick(IRREGULAR_CASE);
+                }
+                for f in fam {
+                    if f.contains(&c) {
+                        return *rng.pick(f);
+                    }
+                }
+                c
+            };
+            let mut inp: String = String::new();
+            if !anchored && rng.chance(1, 2) {
+                inp.push('x');
+            }
+            inp.extend(l.iter());
+            inp.extend(sep.iter());
+            for c in &l {
+                inp.push(variant(&mut rng, *c));
+            }
+            let mut c = Case::new(&ast, *rng.pick(&["i", "i", "i", ""]), &inp);
+            c.aux = Some("lit_twin".to_string());
+            emit(c);
+        }
+        J::obj().with("random_patterns_this_shard", J::u(n)).with("literal_twin_cases_this_shard", J::u(nt))
     }
     fn corpus(&self) -> Vec<Case> {
         raw(&[
